@@ -677,6 +677,56 @@ def make_regrid_run(el, eu, with_sfunc):
     return run
 
 
+def make_region_regrid_run(start_ind, lower_conn, upper_conn):
+    """Real EquilibriumRegion.getRegridded (the wrapper that knows ny and the connections): the
+    spacing function is built for the length BETWEEN the region's end points (startInd may be
+    non-zero once guard points exist), with 2 ny + 1 points; guard points exactly at ends without
+    a neighbour; the PsiContour machinery receives exactly these."""
+
+    def run(ctx):
+        from hypnotoad.core import equilibrium as E
+
+        r = object.__new__(E.EquilibriumRegion)
+        n0 = 6
+        d = [ctx.real("dist%d" % k) for k in range(n0)]
+        r._startInd, r._endInd = start_ind, n0 - 2
+        r._fine_contour = r._distance = None
+        r._extend_lower = r._extend_upper = 0
+        ny, myg = ctx.int("ny_noguards"), ctx.int("y_boundary_guards")
+        ctx.assume(And(ny >= 1, myg >= 0))
+        r.ny_noguards = ny
+        r.user_options = types.SimpleNamespace(y_boundary_guards=myg)
+        r.connections = [dict(lower=("a", 0) if lower_conn else None, upper=("b", 0) if upper_conn else None)] * 2
+        r.get_distance = lambda psi=None: d
+        log = {}
+
+        def fixed(npoints, distance, **kw):
+            log["fixed"] = (npoints, distance, kw)
+            return "SFUNC"
+
+        r.getSfuncFixedSpacing = fixed
+        r.newRegionFromPsiContour = lambda c: ("new region", c)
+
+        def base_regrid(self, npoints, **kw):
+            log["base"] = (npoints, kw)
+            return "CONTOUR"
+
+        with patched((E.PsiContour, "getRegridded", base_regrid)):
+            out = E.EquilibriumRegion.getRegridded(r, 1, psi="PSI", width=3)
+        with spec_mode():
+            ctx.oblige(TRUE(out == ("new region", "CONTOUR")), "result: a region built from the regridded contour")
+            npts, dist, kw = log["fixed"]
+            ctx.oblige(And(npts == 2 * ny + 1, dist == d[n0 - 2] - d[start_ind]), "spacing function for 2 ny + 1 points over the length between the region's OWN end points (distance[endInd] - distance[startInd])")
+            if start_ind:
+                ctx.oblige(dist == d[n0 - 2] - d[0], "twin: measured from the first (guard) point", kind="must-fail")
+            bn, bk = log["base"]
+            ctx.oblige(And(bn == 2 * ny + 1, bk["extend_lower"] == (0 if lower_conn else 2 * myg), bk["extend_upper"] == (0 if upper_conn else 2 * myg)), "2 ny + 1 points; 2*y_boundary_guards extra points exactly at ends without a neighbour")
+            ctx.oblige(TRUE(bk["sfunc"] == "SFUNC" and bk["psi"] == "PSI" and bk.get("width") == 3), "the contour is regridded with that spacing function; other keywords passed through")
+        return out
+
+    return run
+
+
 def spacing_selection(S):
     """getSpacings / getTargetParameter: which option reaches which end of which leg.
     Every option is a distinct token, so the selection is decided exactly (all leg names x
@@ -760,6 +810,9 @@ def build(S):
         for topo in tk.TOPOLOGIES:
             # which end of a leg is a wall / an X-point (the label getSpacings keys on) agrees with its connections
             S.contract("region kinds vs connections[%s]" % topo, "hypnotoad.cases.tokamak:TokamakEquilibrium.describeDoubleNull", C08.make_pins_run(topo), expected_exceptions=(ValueError,), raises_ok=lambda p: True, shape="sizes symbolic")
+        S.under_contract(E_ + "getRegridded")
+        for st, lc, uc in ((0, False, True), (2, False, True), (0, True, False), (2, True, True)):
+            S.contract("EquilibriumRegion.getRegridded[startInd=%d,lower=%s,upper=%s]" % (st, "joined" if lc else "wall", "joined" if uc else "wall"), E_ + "getRegridded", make_region_regrid_run(st, lc, uc), shape="symbolic ny, guards, distances; helpers are recorder stubs")
         S.under_contract("hypnotoad.core.equilibrium:PsiContour.getRegridded")
         for el, eu in ((0, 0), (2, 0), (0, 2), (2, 2)):
             for wf in (True, False):
